@@ -417,7 +417,8 @@ def handles(tier, seed):
 
 MC_TAGS = {"C03_EntityInBounds": ["C03"], "RepInv": ["C12", "C01", "C10"], "GhostOk": ["C01", "C06"], "C01_ResolveIffLive": ["C01", "C03"],
            "C02_OwnValue": ["C02"], "C03_DirectInBounds": ["C03"], "C08_FreeIsNewer": ["C08"], "C09_Direct": ["C09"],
-           "C12_Len": ["C12"], "NoBad": ["C08", "C10", "C12"]}
+           "C12_Len": ["C12"], "NoBad": ["C08", "C10", "C12"],
+           "AbsLookupAgrees": ["C01"], "Refines": ["C01", "C08", "C09", "C12"]}
 
 def storage_mc(tier, seed):
     """TLC exhaustive exploration of the implementation-level slot-map model (design-level truth;
@@ -447,7 +448,7 @@ def storage_mc(tier, seed):
                 # history ghosts are unbounded under wrapping; only structural / in-bounds invariants, states identified by st
                 f.write("INVARIANTS RepInv C03_DirectInBounds C03_EntityInBounds\nVIEW StView\nCHECK_DEADLOCK FALSE\n")
             else:
-                f.write("INVARIANTS RepInv GhostOk C01_ResolveIffLive C02_OwnValue C03_DirectInBounds C03_EntityInBounds C08_FreeIsNewer C09_Direct C12_Len NoBad\nCHECK_DEADLOCK FALSE\n")
+                f.write("INVARIANTS RepInv GhostOk C01_ResolveIffLive C02_OwnValue C03_DirectInBounds C03_EntityInBounds C08_FreeIsNewer C09_Direct C12_Len NoBad AbsLookupAgrees\nPROPERTY Refines\nCHECK_DEADLOCK FALSE\n")
         rc, out, dt = run_tlc("StorageMC", cfg=cfg, workers=8, timeout=600 if tier == "quick" else 7000)
         st = tlc_stats(out)
         states += st.get("distinct", 0)
@@ -455,10 +456,18 @@ def storage_mc(tier, seed):
         runs.append(dict(cf, distinct=st.get("distinct", 0), generated=st.get("generated", 0), depth=st.get("depth", 0), wall_s=round(dt, 1)))
         if "No error has been found" not in out:
             m = re.search(r"Invariant (\w+) is violated", out)
+            if not m and re.search(r"Action property .* of module AbsMap is violated", out):
+                m = re.match("(Refines)", "Refines")
             if not m:
                 raise ToolError("StorageMC failed:\n" + out[-3000:])
             violations.append({"tags": MC_TAGS.get(m.group(1), ["TOOL"]), "what": "model invariant %s violated (specification-level counterexample)" % m.group(1),
                                "at": 0, "event": {"config": cf, "tlc_tail": out[-1500:]}, "origin": {"engine": "storage_mc"}})
+    # the abstract machine the storage model is shown to implement, checked on its own
+    rc, out, dt = run_tlc("AbsMapMC", workers=2, timeout=300)
+    if "No error has been found" not in out:
+        raise ToolError("AbsMapMC failed:\n" + out[-2000:])
+    ast = tlc_stats(out)
+    runs.append(dict(model="AbsMapMC", distinct=ast.get("distinct", 0), generated=ast.get("generated", 0), wall_s=round(dt, 1)))
     res = {"engine": "storage_mc", "tier": tier, "traces": 0, "runs": runs, "tlc_states": states, "tlc_transitions": trans,
            "violations": violations, "samples": [{"model": "StorageMC", "config": runs[0],
                                                     "invariants": sorted(MC_TAGS)}],
